@@ -16,7 +16,7 @@ if not os.path.exists(WT):
 env = dict(os.environ, VX_REPO=WT, VX_TARGET=TGT)
 res = {}
 only = sys.argv[1:]
-REVERTS = {"revert-D1": ["C06", "C16"], "revert-D2": ["C08"], "revert-D3": ["C11"], "revert-D4": ["C06"], "revert-D5": ["C08"]}
+REVERTS = {"revert-D1": ["C06", "C16"], "revert-D2": ["C08"], "revert-D3": ["C11"], "revert-D4": ["C06"], "revert-D5": ["C08"], "revert-D6": ["C11"]}
 for d in sorted(glob.glob("/verif/seeded/*/")):
     key = os.path.basename(d.rstrip("/"))
     if only and key not in only:
@@ -40,6 +40,10 @@ for d in sorted(glob.glob("/verif/seeded/*/")):
         print(key, c, r.returncode, first[:110], flush=True)
     res[key] = out
     subprocess.run(["git", "-C", WT, "checkout", "--", "."], check=True)
-json.dump(res, open("/verif/seeded/catalogue.json", "w"), indent=1)
+if only and os.path.exists("/verif/seeded/catalogue.json"):
+    old = json.load(open("/verif/seeded/catalogue.json"))
+    old.update(res)
+    res = old
+json.dump(res, open("/verif/seeded/catalogue.json", "w"), indent=1, sort_keys=True)
 missed = [(k, c) for k, v in res.items() for c, o in v.items() if isinstance(o, dict) and o.get("exit") != 1]
 print("MISSED:", missed)
